@@ -28,6 +28,7 @@ pub struct RunResult {
     /// per operation: callback counts of its main call and number of allocator calls
     pub op_counts: Vec<([u32; NCLASS], u32)>,
     pub fault_fired: bool,
+    pub transcript: u64,
 }
 
 /// Totals copied out of the global state at the end of a run.
@@ -109,6 +110,7 @@ fn finish_run(w: &mut dyn World, violation: Option<Violation>, scenario: Scenari
         callbacks: ctx.callbacks,
         op_counts,
         fault_fired: ctx.last_fired.is_some() || ctx.drop_fault_fired,
+        transcript: ctx.transcript.0,
     }
 }
 
@@ -201,6 +203,10 @@ pub struct WorkerOpts {
     pub digests: bool,
     pub max_violations: usize,
     pub budget_s: f64,
+    /// write every generated scenario and its transcript digest to this file (C18, first build)
+    pub emit: Option<String>,
+    /// replay the scenarios of this file instead of generating (C18, second build)
+    pub batch: Option<String>,
 }
 
 fn cpu_seconds() -> f64 {
@@ -284,7 +290,25 @@ pub fn worker(o: WorkerOpts) -> i32 {
         }
     };
 
-    for i in o.from..o.from + o.count {
+    let batch: Option<Vec<(u64, Scenario, u64)>> = o.batch.as_ref().map(|p| {
+        std::fs::read_to_string(p)
+            .expect("batch file")
+            .lines()
+            .filter(|l| !l.trim().is_empty())
+            .map(|l| {
+                let v: serde_json::Value = serde_json::from_str(l).expect("batch line");
+                let sc: Scenario = serde_json::from_value(v["scenario"].clone()).expect("scenario");
+                let t = u64::from_str_radix(v["transcript"].as_str().unwrap_or("0"), 16).unwrap_or(0);
+                (v["i"].as_u64().unwrap_or(0), sc, t)
+            })
+            .collect()
+    });
+    let mut emit = o.emit.as_ref().map(|p| std::io::BufWriter::new(std::fs::File::create(p).expect("emit file")));
+    let indices: Vec<u64> = match &batch {
+        Some(b) => b.iter().map(|x| x.0).collect(),
+        None => (o.from..o.from + o.count).collect(),
+    };
+    for (pos, i) in indices.into_iter().enumerate() {
         if o.budget_s > 0.0 && t0.elapsed().as_secs_f64() > o.budget_s {
             truncated = true;
             break;
@@ -296,8 +320,38 @@ pub fn worker(o: WorkerOpts) -> i32 {
         }
         let seed = mix3(o.seed_base, tag, i);
         let mut rng = Rng::new(seed);
-        let spec = profiles::spec_for(&o.prop, o.thorough, &mut rng);
-        let res = run_generated(&o.prop, spec, seed, &mut rng, trace.as_mut());
+        let mut res = match &batch {
+            Some(b) => {
+                // differential replay: the same scenario under this build must give the same transcript
+                let (_, sc, want) = &b[pos];
+                if let Some(t) = trace.as_mut() {
+                    t.begin(&sc.property, &sc.world, sc.seed, &sc.cfg);
+                    for op in &sc.ops {
+                        t.op(op);
+                    }
+                }
+                let mut r = replay(sc);
+                if r.violation.is_none() && r.transcript != *want {
+                    r.violation = Some(Violation {
+                        class: "differential/transcript".into(),
+                        op_index: sc.ops.len().saturating_sub(1),
+                        op_kind: "Finish".into(),
+                        detail: format!("transcript of content-semantic observables {:016x} under group width {} differs from {:016x} recorded by the other back-end", r.transcript, hashbrown::verif::verif_group_width(), want),
+                    });
+                }
+                r
+            }
+            None => {
+                let spec = profiles::spec_for(&o.prop, o.thorough, &mut rng);
+                run_generated(&o.prop, spec, seed, &mut rng, trace.as_mut())
+            }
+        };
+        if let Some(f) = emit.as_mut() {
+            if res.violation.is_none() {
+                let _ = writeln!(f, "{}", json!({"i": i, "scenario": res.scenario, "transcript": format!("{:016x}", res.transcript)}));
+            }
+        }
+        let _ = &mut res;
         runs += 1;
         executions += 1;
         ops += res.ops;
@@ -316,10 +370,11 @@ pub fn worker(o: WorkerOpts) -> i32 {
         if samples.len() < 2 && res.scenario.ops.len() <= 40 && res.nontrivial {
             samples.push(json!({"seed_index": i, "scenario": res.scenario}));
         }
+        let expect: Option<u64> = batch.as_ref().map(|b| b[pos].2);
         let mut report = |v: &Violation, sc: &Scenario, violations: &mut Vec<serde_json::Value>| {
             if profiles::owns(&o.prop, v) {
                 if violations.len() < o.max_violations {
-                    violations.push(json!({"seed_index": i, "seed": seed, "violation": v, "scenario": sc}));
+                    violations.push(json!({"seed_index": i, "seed": seed, "violation": v, "scenario": sc, "expect_transcript": expect.map(|t| format!("{:016x}", t))}));
                 }
             } else {
                 *foreign.entry(v.class.clone()).or_insert(0) += 1;
@@ -330,7 +385,9 @@ pub fn worker(o: WorkerOpts) -> i32 {
         };
         if let Some(v) = &res.violation {
             let mut sc = res.scenario.clone();
-            sc.ops.truncate(v.op_index.saturating_add(1).min(sc.ops.len()));
+            if !v.class.starts_with("differential/") {
+                sc.ops.truncate(v.op_index.saturating_add(1).min(sc.ops.len()));
+            }
             report(v, &sc, &mut violations);
         } else if fault_enumerating(&o.prop) {
             // Fault enumeration: re-execute the recorded scenario with the k-th callback of a class
